@@ -1,21 +1,122 @@
-(* Property C09 — HTTP wire fidelity. Statements only; proofs live in Proofs/HeadersProofs.v. *)
+(* Property C09 — HTTP wire fidelity. Statements only; proofs live in Proofs/HeadersProofs.v.
+
+   Model (Model/Headers.v): [effective canon f file cfg e] = the *http.Request the decoded ammo of format f
+   builds (decoder merge site + Ammo/RawAmmo.BuildRequest + EnrichRequestWithHeaders), [on_wire g r] = what
+   BaseGun.Shoot makes of it.  [file] = the in-file "[k: v]" lines in scope at the entry (uri, uripost),
+   [cfg] = the provider's `headers` option, [canon] = textproto.CanonicalMIMEHeaderKey.  All theorems hold for
+   EVERY idempotent canon; the concrete copy canon_mime (the one the correspondence run compares with Go's) is
+   proved idempotent below. *)
 From Coq Require Import List NArith Bool.
 From PV Require Import Model.Headers Proofs.HeadersProofs.
 Import ListNotations.
 Local Open Scope N_scope.
 
-(* textproto.CanonicalMIMEHeaderKey (concrete copy) is idempotent and fixes "Host". *)
-Theorem C09_canon_mime_idempotent : forall s, canon_mime (canon_mime s) = canon_mime s.
+Definition idempotent (canon : str -> str) : Prop := forall s, canon (canon s) = canon s.
+
+Theorem C09_canon_mime_idempotent : idempotent canon_mime.
 Proof. exact canon_mime_idem. Qed.
 Print Assumptions C09_canon_mime_idempotent.
 
-(* Header precedence "for every format alike" (full statement, see C09_precedence in the design):
-     forall f file cfg e g k,
-       hm_get k (w_hdrs (on_wire g (effective canon f file cfg e))) = spec_get canon f file cfg e k
-   i.e. a key the entry (incl. in-file headers in scope) defines carries the entry's values, any other key the configured
-   values, nothing else.  FALSE of the code as it is for uri (and uripost): file [X-A: f] + configured [X-A: c] sends c. *)
-Theorem C09_precedence_refuted :
-  exists file cfg e g k,
-    hm_get k (w_hdrs (on_wire g (effective canon_mime FUri file cfg e))) <> spec_get canon_mime FUri file cfg e k.
-Proof. exact uri_precedence_refuted. Qed.
-Print Assumptions C09_precedence_refuted.
+(* Pass-through: method (GET / POST for the method-less formats uri / uripost), request-URI, body bytes (none for
+   uri), scheme by ssl, connection address = the gun's resolved target — whatever the entry's own URL says —
+   and every header key the entry (incl. in-file headers in scope) defines keeps exactly the entry's values. *)
+Theorem C09_passthrough : forall canon, idempotent canon -> forall f file cfg e g,
+  let w := on_wire g (effective canon f file cfg e) in
+  w_method w = spec_method f e /\ w_uri w = e_uri e /\ w_body w = spec_body f e /\
+  w_tls w = g_ssl g /\ w_addr w = g_resolved g /\
+  (forall k vs, str_eqb k host_key = false -> hm_get k (entry_defined canon f file e) = Some vs -> hm_get k (w_hdrs w) = Some vs).
+Proof. exact passthrough. Qed.
+Print Assumptions C09_passthrough.
+
+(* Precedence, for every format alike and for every key: the header map on the wire is, key by key, the entry's
+   own definition where it has one, otherwise the configured values (all of them, in order), otherwise nothing;
+   Host never travels in the map (it is w_host).  The map has no duplicate keys. *)
+Theorem C09_precedence : forall canon, idempotent canon -> forall f file cfg e g k,
+  hm_get k (w_hdrs (on_wire g (effective canon f file cfg e))) =
+  if str_eqb k host_key then None
+  else match hm_get k (entry_defined canon f file e) with
+       | Some vs => Some vs
+       | None => hm_get k (cfg_map canon cfg)
+       end.
+Proof. exact precedence. Qed.
+Print Assumptions C09_precedence.
+
+(* the same as an iff: a configured header is on the wire iff the entry does not define that key *)
+Theorem C09_configured_iff : forall canon, idempotent canon -> forall f file cfg e g k vs,
+  str_eqb k host_key = false -> hm_get k (cfg_map canon cfg) = Some vs ->
+  (hm_get k (w_hdrs (on_wire g (effective canon f file cfg e))) = Some vs /\ hm_get k (entry_defined canon f file e) = None)
+  \/ (exists ws, hm_get k (entry_defined canon f file e) = Some ws /\
+                 hm_get k (w_hdrs (on_wire g (effective canon f file cfg e))) = Some ws).
+Proof. exact configured_iff. Qed.
+Print Assumptions C09_configured_iff.
+
+Theorem C09_no_duplicate_keys : forall canon, idempotent canon -> forall f file cfg e g,
+  NoDup (map fst (w_hdrs (on_wire g (effective canon f file cfg e)))).
+Proof. exact wire_hdrs_nodup. Qed.
+Print Assumptions C09_no_duplicate_keys.
+
+(* Host: the entry's host (URL host / jsonline "host" field, else its Host header, for uri/uripost the in-file
+   one) when it has one; else the configured Host header; else the target's host.  Guard: the entry's own Host
+   header is not present-with-an-empty-value (C09_host_empty_value says what happens then). *)
+Theorem C09_host : forall canon, idempotent canon -> forall f file cfg e g,
+  entry_host canon f file e <> Some [] ->
+  w_host (on_wire g (effective canon f file cfg e)) =
+  (let h := match entry_host canon f file e with
+            | Some h => h
+            | None => match hm_get host_key (cfg_map canon cfg) with Some (v, _) => v | None => [] end
+            end in
+   if is_nil h then g_target_host g else h).
+Proof. exact host_rule. Qed.
+Print Assumptions C09_host.
+
+Theorem C09_host_empty_value : forall canon, idempotent canon -> forall f file cfg e g,
+  entry_host canon f file e = Some [] ->
+  w_host (on_wire g (effective canon f file cfg e)) =
+  match f with
+  | FRaw => let c := host_of (cfg_map canon cfg) in if is_nil c then g_target_host g else c
+  | _ => g_target_host g
+  end.
+Proof. exact host_empty_corner. Qed.
+Print Assumptions C09_host_empty_value.
+
+(* Whole files: every entry of a file, with the in-file headers in scope at its position, reaches the target as
+   the format-independent specification [spec_wire] says (header maps compared key by key). *)
+Theorem C09_file : forall canon, idempotent canon -> forall f cfg g items,
+  items_guard canon f [] items ->
+  Forall2 wire_equiv (map (on_wire g) (file_requests canon f cfg [] items)) (file_spec canon f cfg [] g items).
+Proof. intros canon Hc f cfg g items. apply file_equiv. exact Hc. Qed.
+Print Assumptions C09_file.
+
+(* spec_hdrs (the printable header map the correspondence run compares with) is the map C09_precedence states *)
+Theorem C09_spec_hdrs_meaning : forall canon f file cfg e k,
+  hm_get k (spec_hdrs canon f file cfg e) = spec_get canon f file cfg e k.
+Proof. exact spec_hdrs_get. Qed.
+Print Assumptions C09_spec_hdrs_meaning.
+
+(* Keep-alive / connection count: PARTIAL.  Proved (gun side): whenever Client.Do returned a response, Shoot
+   closes its body on every path and has drained it to EOF unless reading failed; guns that do not use the
+   shared client pool have pairwise distinct clients (one per instance), pool clients are at most client-number.
+   NOT proved (runtime behaviour of net/http's Transport, checked by the harness on every case only): that under
+   these conditions an instance's successive requests reuse one connection, and that disable-keep-alives gives
+   one connection per request. *)
+Theorem C09_keepalive_gun_side_partial :
+  (forall ok, exists pre, shoot_body_events (RespOk ok) = pre ++ [BodyClosed]) /\
+  shoot_body_events (RespOk true) = [BodyDrained; BodyClosed] /\
+  (forall n i j, gun_client false n i = gun_client false n j -> i = j) /\
+  (forall n i, exists s, gun_client true n i = PoolClient s /\ (s < Nat.max 1 n)%nat).
+Proof.
+  split; [exact shoot_body_closed|]. split; [exact shoot_body_drained|].
+  split; [exact gun_client_own_injective|exact gun_client_shared_bound].
+Qed.
+Print Assumptions C09_keepalive_gun_side_partial.
+
+(* non-vacuity: DESIGN.md section 6 #13 on the concrete canonicalisation — in-file [x-a: file] + configured
+   [X-A: conf] + [X-A: conf2] + [X-B: b]: the file's value wins, X-B keeps its configured value; the guards hold. *)
+Definition ex_entry : entry := {| e_method := m_get; e_uri := [47;97]; e_scheme := 0; e_urlhost := []; e_hdrs := []; e_body := [] |}.
+Definition ex_gun : gun_cfg := {| g_ssl := false; g_target_host := [116]; g_resolved := [84] |}.
+Example C09_example_precedence :
+  let w := on_wire ex_gun (effective canon_mime FUri [([120;45;97], [102])] [([88;45;65], [99]); ([88;45;65], [100]); ([88;45;66], [98])] ex_entry) in
+  w_hdrs w = [([88;45;65], ([102], [])); ([88;45;66], ([98], []))] /\ w_host w = [116] /\
+  entry_host canon_mime FUri [([120;45;97], [102])] ex_entry <> Some [] /\
+  items_guard canon_mime FUri [] [IHdr [120;45;97] [102]; IEntry ex_entry].
+Proof. cbn. repeat split; discriminate. Qed.
